@@ -21,20 +21,24 @@ PY
 rm -f "$seed/confirm.json"; res seed "$name" repo_head "$(git -C /repo rev-parse --short HEAD)"
 run_demo() { # $1 = label (with|without)
   local rc=99 kind=none
-  for d in "$seed"/demo*; do
+  export COPIA="$CARGO_TARGET_DIR/debug/copia" COPIA_BIN="$CARGO_TARGET_DIR/debug/copia"
+  # demos that hard-code the sub-agent's worktree path: point that path at this worktree for the run
+  for hp in $(grep -ho '/tmp/wt[0-9]*-C[0-9]*' "$seed"/demo* 2>/dev/null | sort -u); do [ -e "$hp" ] || ln -s "$wt" "$hp"; done
+  local list; list=$(ls "$seed"/demo*.sh 2>/dev/null; ls "$seed"/demo*.py "$seed"/demo*.rs 2>/dev/null)
+  for d in $list; do
     case "$d" in
-      *.sh) kind=sh; mkdir -p _seed; cp "$seed"/demo* "$seed"/*.c "$seed"/ssh-standin _seed/ 2>/dev/null; timeout 600 bash "_seed/$(basename "$d")" >"/tmp/cs-$name.$1.log" 2>&1; rc=$?; break;;
+      *.sh) kind=sh; mkdir -p _seed; cp "$seed"/demo* "$seed"/*.c "$seed"/ssh-standin _seed/ 2>/dev/null; for cf in _seed/*.c; do [ -f "$cf" ] && gcc -shared -fPIC -O1 -o "${cf%.c}.so" "$cf" -ldl 2>/dev/null; done; timeout 600 bash "_seed/$(basename "$d")" >"/tmp/cs-$name.$1.log" 2>&1; rc=$?; break;;
       *.py) kind=py; mkdir -p _seed; cp "$seed"/demo* _seed/ 2>/dev/null; COPIA_BIN="$CARGO_TARGET_DIR/debug/copia" timeout 600 python3 "_seed/$(basename "$d")" >"/tmp/cs-$name.$1.log" 2>&1; rc=$?; break;;
       *.rs) kind=rs; if grep -q "rustc" "$d" && grep -q "path" "$d"; then mkdir -p _seed target; cp "$d" _seed/; timeout 600 bash -c "rustc --edition 2021 --test -A warnings _seed/$(basename "$d") -o target/demo_bin && ./target/demo_bin" >"/tmp/cs-$name.$1.log" 2>&1; rc=$?; else cp "$d" tests/zz_seed_demo.rs; timeout 900 cargo test --offline --features cli --test zz_seed_demo >"/tmp/cs-$name.$1.log" 2>&1; rc=$?; rm -f tests/zz_seed_demo.rs; fi; break;;
     esac
   done
+  for hp in $(grep -ho '/tmp/wt[0-9]*-C[0-9]*' "$seed"/demo* 2>/dev/null | sort -u); do [ -L "$hp" ] && rm -f "$hp"; done
   echo "$kind $rc"
 }
 # target/debug/copia symlink so demos that hard-code target/debug/copia work
-mkdir -p target/debug
+rm -rf target; ln -s "$CARGO_TARGET_DIR" target
 if git apply "$seed/patch.diff" 2>/dev/null; then res applies true; else res applies false; cd /; git -C /repo worktree remove --force "$wt"; exit 0; fi
 if cargo build --offline >/dev/null 2>&1 && cargo build --offline --features cli >/dev/null 2>&1; then res builds true; else res builds false; fi
-ln -sf "$CARGO_TARGET_DIR/debug/copia" target/debug/copia
 rm -f "$CARGO_TARGET_DIR/debug/copia.keep"
 if /verif/tools/baseline.sh "$wt" >/tmp/cs-$name.base.log 2>&1; then res baseline_254 true; else res baseline_254 false; fi
 if cargo test --offline --features cli --bin copia >/tmp/cs-$name.bin.log 2>&1; then res bin_unit_tests true; else res bin_unit_tests false; fi
@@ -42,7 +46,6 @@ cargo build --offline --features cli >/dev/null 2>&1
 set -- $(run_demo with); res demo_kind "$1" demo_rc_with_change "$2"
 git checkout -- . ; git clean -fdq -e target
 cargo build --offline --features cli >/dev/null 2>&1
-ln -sf "$CARGO_TARGET_DIR/debug/copia" target/debug/copia
 set -- $(run_demo without); res demo_rc_without_change "$2"
 cd /; git -C /repo worktree remove --force "$wt"
 cat "$seed/confirm.json"
